@@ -519,6 +519,9 @@ def eq_term(I, a, b):
             return av == bv
         if ka == STR:
             from . import strparts as SP
+            r = SP.equal_units(a, b)
+            if r is not SP.NOTFOUND:
+                return r
             r = SP.equal(a, b)
             if r is not SP.NOTFOUND:
                 return r
@@ -748,6 +751,11 @@ def length(I, v):
     if isinstance(v, (list, tuple, str, dict, set, frozenset)):
         return len(v)
     if isinstance(v, Sym) and v.kind == STR:
+        if v.parts is not None:
+            from . import strparts as SP
+            r = SP.concrete_len(v)
+            if r is not SP.NOTFOUND:
+                return r
         return Sym(INT, z3.Length(v.t))
     if isinstance(v, SSeq):
         return Sym(INT, z3.Length(v.t))
@@ -846,6 +854,13 @@ def subscript(I, o, k):
                 raise PyExc('IndexError')
         o = Sym(STR, z3.StringVal(o))
     if isinstance(o, Sym) and o.kind == STR:
+        if o.parts is not None and isinstance(k, int):
+            from . import strparts as SP
+            r = SP.char_at(o, k)
+            if r == 'IndexError':
+                raise PyExc('IndexError')
+            if r is not SP.NOTFOUND:
+                return r
         i = k if I.noforking else norm_index(I, k, Sym(INT, z3.Length(o.t)))
         return SChar(z3.SubString(o.t, I.term(i), 1), o, i)
     if isinstance(o, SSeq):
